@@ -78,7 +78,12 @@ def runJob_map(i):  # pylint: disable=too-many-locals
     t_deserialize_task_context = time.perf_counter() - t_start
 
     t_start = time.perf_counter()
-    result = _run_task(task_context, rdd, func, partition)
+    try:
+        result = _run_task(task_context, rdd, func, partition)
+    except StopIteration as e:
+        # a pool that runs its tasks as list(map(...)) would take this for the
+        # end of its input and silently drop this and all later results
+        raise RuntimeError('task raised StopIteration') from e
     t_exec = time.perf_counter() - t_start
 
     return data_serializer((
